@@ -789,6 +789,24 @@ func (e *Exec) bitop(st *State, op string, x, y *Term, rt types.Type) *Term {
 			}
 		}
 	}
+	// x | c, x ^ c, x &^ c with a constant of few bits: exact through x & c (non-negative x)
+	if (op == "|" || op == "^" || op == "&^") && st != nil {
+		cx, cc := x, y
+		if op != "&^" && cx.isInt() {
+			cx, cc = cc, cx
+		}
+		if cc.isInt() && cc.Val.Sign() >= 0 && popcount(cc.Val) <= 8 && !cx.isInt() {
+			and := e.bitop(st, "&", cx, cc, nil)
+			switch op {
+			case "|":
+				return mkAdd(cx, mkSub(cc, and))
+			case "^":
+				return mkSub(mkAdd(cx, cc), mkMul(mkInt64(2), and))
+			case "&^":
+				return mkSub(cx, and)
+			}
+		}
+	}
 	name := map[string]string{"&": "bitand", "|": "bitor", "^": "bitxor", "&^": "bitandnot", "<<": "shl", ">>": "shr"}[op]
 	r := mkApp(name, SInt, x, y)
 	if st != nil && st.quiet == 0 {
